@@ -686,6 +686,8 @@ FORCE_WINDOW = 300        # per function: calls during which a not-yet-exercised
 DECOY_DEFAULT = '1'       # the call-sequence mode is on unless VERIF_DECOY=0 (or the layer is off)
 DECOY_STYLES = ('renumbered', 'halved')     # same multiset / total (state keyed by size or totals) ; other values (state keyed by the object)
 DECOY_SEED = 20261002     # what a generator passed as `seed` is replaced by in a decoy call
+DECOY_FULL = 100          # per function: eligible calls during which the probability is p; afterwards p * DECOY_FULL / (number of calls so far)
+DECOY_AFTER = 1.0 / 3     # share of the sequences that also get the second decoy call (after the judged call)
 DECOY_T = 2.0             # wall-clock limit of one decoy call (load-scaled); a function whose decoy timed out gets no further decoys
 
 
@@ -927,16 +929,21 @@ def _decoy_plan(name, f, a, k, ctx):
     if where is None or _var_blocked(name, f, a, k):
         return None
     key = (((ctx.seed * 1000003 + int(ctx.pid[1:])) * 1000003 + st['salt']) * 1000003 + st['counter']) ^ 0x5DEC0DEC0
-    take = _scramble(key) < st['decoy_p']
     n = st['decoy_ncalls'][name] = st['decoy_ncalls'].get(name, 0) + 1
+    # p for the first DECOY_FULL eligible calls of a function, then p * DECOY_FULL / n: the number of sequences per function grows with the
+    # logarithm of its call count (about p * DECOY_FULL * (1 + ln(n / DECOY_FULL))), spread over the whole run - the cost stays bounded
+    # for routines the harness calls tens of thousands of times
+    take = _scramble(key) < st['decoy_p'] * min(1.0, DECOY_FULL / float(n))
     pend = st['decoy_pending'].setdefault(name, list(DECOY_STYLES))
-    if pend and n <= FORCE_WINDOW:
+    forced = bool(pend) and n <= FORCE_WINDOW
+    if forced:
         style = pend.pop(0)
     elif take:
         style = DECOY_STYLES[0] if _scramble(key + 1) < 0.6 else DECOY_STYLES[1]
     else:
         return None
-    return {'where': where, 'style': style, 'perm_seed': int(_scramble(key + 2) * (2 ** 31 - 1))}
+    # the second decoy call (after the judged one): on the forced sequences and on every third of the others
+    return {'where': where, 'style': style, 'perm_seed': int(_scramble(key + 2) * (2 ** 31 - 1)), 'after': forced or _scramble(key + 3) < DECOY_AFTER}
 
 
 def _decoy_arg(x):
@@ -1050,6 +1057,7 @@ def _wrap_variant(name, f):
         if plan is None:
             # call-sequence mode (never together with a storage conversion): decoy call on a private buffer, then the harness's call
             # on the SAME buffer overwritten in place with the harness's values
+            t0 = time.process_time()
             dec = _decoy_plan(name, f, a, k, ctx)
             made = dec and decoy_buffer(a[dec['where']] if isinstance(dec['where'], int) else k[dec['where']], dec['style'], dec['perm_seed'])
             if not made:
@@ -1065,6 +1073,7 @@ def _wrap_variant(name, f):
             else:
                 k2[w] = B
             ctx.count('decoy:' + name)
+            st['decoy_stats']['cpu_s'] = st['decoy_stats'].get('cpu_s', 0.0) + time.process_time() - t0
         else:
             kind, ws = plan
             for w in ws:
@@ -1098,8 +1107,9 @@ def _wrap_variant(name, f):
                 return res
             # a result that has been returned is a value: another call of the routine (second decoy, on a buffer of its own - `res` may
             # legitimately share memory with B) must not change it.  The harness judges `res` as it is AFTER that call.
-            if st['retry']:
-                return res             # the harness records while the routine runs: a later call cannot be told from the judged one
+            if st['retry'] or not dec['after']:
+                return res             # (the harness records while the routine runs: a later call cannot be told from the judged one)
+            t0 = time.process_time()
             made = decoy_buffer(A, dec['style'], dec['perm_seed'] + 1)
             if not made:
                 return res
@@ -1107,6 +1117,7 @@ def _wrap_variant(name, f):
             B2, how2 = made
             info['decoy']['after'] = dict(how2, outcome=_run_decoy(name, f, a, k, dec['where'], B2, cleanups=False))
             changed = _snap_changed(snap, res)
+            st['decoy_stats']['cpu_s'] = st['decoy_stats'].get('cpu_s', 0.0) + time.process_time() - t0
             if changed:
                 ctx.fail('%s:result-changed-by-later-call' % name, 'the object returned by %s (%s) changed when %s was called again on another array of the '
                          'same shape: the result of the first call is overwritten by the second' % (name, changed, name),
@@ -1216,7 +1227,7 @@ def variants_trusted_line(ctx):
     n = sum(v for k, v in ctx.dist.items() if k.startswith('variant:'))
     nd = sum(v for k, v in ctx.dist.items() if k.startswith('decoy:'))
     if isinstance(iv.get('decoy'), dict):
-        iv['decoy'].update(sequences=nd, decoy_call_outcomes=dict(_VAR['decoy_stats']), functions_whose_decoy_timed_out=sorted(_VAR['decoy_bad'] - set(iv['decoy']['skipped_functions'])))
+        iv['decoy'].update(sequences=nd, decoy_call_outcomes={q: v for q, v in _VAR['decoy_stats'].items() if q != 'cpu_s'}, cpu_s=round(_VAR['decoy_stats'].get('cpu_s', 0.0), 2), functions_whose_decoy_timed_out=sorted(_VAR['decoy_bad'] - set(iv['decoy']['skipped_functions'])))
     dline = ('; call-sequence mode: %d calls were made as decoy call f(B) - B[...] = A - judged call f(B) - decoy call f(B2), on private buffers (B, B2: node '
              'renumberings of A, some halved), and judged by the same oracle and model: trusted: ndarray.copy / fancy indexing / in-place assignment preserve '
              'values, a decoy call leaves nothing behind in the harness (global np.random state, _verif hook log and variant_retry recordings are put back, '
